@@ -139,7 +139,10 @@ class Schemas:
         lps = [p for p, _f in q.enclosing_chain(q.stmt(puts[0]), fl.node) if isinstance(p, ast.For)]
         if not lps:
             raise AnalysisError('History.flush: row put is not inside a loop over the unflushed script hashes')
-        env = self.env(fl, {norm(lps[0].target): self.w.HX()})
+        # for hashX in sorted(unflushed)   or   for hashX, hist in sorted(unflushed.items()): the key variable is the script hash
+        tgt = lps[0].target
+        kv = tgt.elts[0] if isinstance(tgt, ast.Tuple) and len(tgt.elts) == 2 and '.items()' in norm(lps[0].iter) else tgt
+        env = self.env(fl, {norm(kv): self.w.HX()})
         k = env.ev(puts[0].args[0])
         if not isinstance(k, Lay):
             raise AnalysisError(f'History.flush: row key layout not derivable ({k})')
